@@ -27,7 +27,7 @@ for patch in sys.argv[1:]:
                 det = re.findall(r"detail: (.*)", out)[:2]
                 alarms[cid] = {"exit": rc, "sigs": [s[:120] for s in sigs[:4]], "detail": [d[:200] for d in det], "tail": out[-300:] if not sigs else ""}
     finally:
-        sh("git checkout -- .", cwd=REPO)
+        sh("git checkout -- ." + ("" if REPO == "/repo" else " && git clean -fdq"), cwd=REPO)  # new files of a patch are removed in scratch worktrees
     rows[patch] = alarms
     print(patch, "SILENT" if not alarms else "ALARM " + json.dumps(alarms), flush=True)
 json.dump(rows, open(os.environ.get("BEN_RES", "/tmp/vsand2/benign_results.json"), "w"), indent=1)
